@@ -377,7 +377,7 @@ pub fn check_eq_hash(info: &mut CaseInfo, a: &N, b: &N) -> CheckResult {
 const KEY_TEXTS: &[&str] = &["a", "b", "key", "1", "01", "1.0", "true", "True", "~", "", "null", "A", "Key", "é", "0x1", "[]", "{}", "x y", "-1", "2"];
 
 fn scalar_key() -> impl Strategy<Value = N> {
-    prop_oneof![
+    crate::oneof![
         5 => proptest::sample::select(KEY_TEXTS).prop_map(|s| N::Str(s.to_string())),
         1 => "[a-c]{1,2}".prop_map(N::Str),
         2 => (-2i64..4).prop_map(N::Int),
@@ -391,8 +391,8 @@ fn scalar_key() -> impl Strategy<Value = N> {
 }
 
 fn small_node() -> impl Strategy<Value = N> {
-    scalar_key().prop_recursive(2, 8, 3, |inner| {
-        prop_oneof![
+    crate::engine::recursive(scalar_key().boxed(), 2, 8, 3, |inner| {
+        crate::oneof![
             proptest::collection::vec(inner.clone(), 0..3).prop_map(N::Seq),
             proptest::collection::vec((inner.clone(), inner.clone()), 0..3).prop_map(N::Map),
         ]
@@ -400,7 +400,7 @@ fn small_node() -> impl Strategy<Value = N> {
 }
 
 pub fn mapping() -> impl Strategy<Value = N> {
-    proptest::collection::vec((prop_oneof![4 => scalar_key(), 1 => small_node()], prop_oneof![3 => (0i64..100).prop_map(N::Int), 1 => small_node()]), 0..7).prop_map(N::Map)
+    proptest::collection::vec((crate::oneof![4 => scalar_key(), 1 => small_node()], crate::oneof![3 => (0i64..100).prop_map(N::Int), 1 => small_node()]), 0..7).prop_map(N::Map)
 }
 
 pub fn probes_for(node: &N, extra: &[String]) -> Vec<String> {
@@ -482,7 +482,7 @@ impl Property for C20P {
             "lookups" => {
                 let total = lookup_cases(ctx.tier);
                 let n = (total - (block * BLOCK).min(total)).min(BLOCK) as u32;
-                let strat = (prop_oneof![5 => mapping(), 1 => proptest::collection::vec(small_node(), 0..5).prop_map(N::Seq), 1 => proptest::collection::vec(((0i64..6).prop_map(N::Int), small_node()), 0..5).prop_map(N::Map)], proptest::collection::vec("[a-c1~ ]{0,3}", 0..3));
+                let strat = (crate::oneof![5 => mapping(), 1 => proptest::collection::vec(small_node(), 0..5).prop_map(N::Seq), 1 => proptest::collection::vec(((0i64..6).prop_map(N::Int), small_node()), 0..5).prop_map(N::Map)], proptest::collection::vec("[a-c1~ ]{0,3}", 0..3));
                 crate::engine::run_proptest(
                     ctx,
                     strat,
